@@ -17,9 +17,16 @@ CHECKS = {
     "C01": ("DESIGN.md 2/C01", "Partition invariance, identity, commutativity and associativity of + decided for all symbolic data "
             "(symbolic weights, NaN/inf where stated) of streams n<=2..3 on every catalogue tree.", ""),
     "C02": ("DESIGN.md 2/C02", "After n<=2..3 symbolic fills the public state of every node equals an independent reference semantics "
-            "(engine/refsem.py) evaluated on the same symbolic values; order independence; non-positive/NaN weights are no-ops.", ""),
+            "(engine/refsem.py) evaluated on the same symbolic values; order independence; non-positive/NaN weights are no-ops; IEEE routing "
+            "of Bin (flows iff comparisons, monotone index, every index attained) by SMT queries for every Float64.", " + AST->SMT-LIB kernel encoder (cvc5, z3)"),
+    "C03": ("DESIGN.md 2/C03", "fill.numpy (through a validated model of the numpy calls histogrammar makes) equals per-row fill for "
+            "symbolic batches n<=2..3, omitted / scalar / array weights (zeros included), NaN/inf rows, split batches; inputs unmodified.",
+            " + numpy stand-in (engine/npmodel.py)"),
     "C04": ("DESIGN.md 2/C04", "toJson strictness, fromJson(toJson) fixpoint and interchangeability of the reload under +, *, zero, copy, "
             "for every primitive in every child/flow slot (empty states enumerated, filled/merged states with symbolic data).", ""),
+    "C05": ("DESIGN.md 2/C05", "(a) for every Float64 x and each bin configuration: exactly one target, index in range, no exception -- "
+            "SMT queries (QF_FP) generated from the kernels' source, cvc5 and z3 must agree; (b) conservation invariants after every step "
+            "of operation histories with symbolic data/weights/factors.", " + AST->SMT-LIB kernel encoder (cvc5, z3)"),
     "C06": ("DESIGN.md 2/C06", "Operands unchanged by pure operations; results of +, *, zero, copy share no state with operands under "
             "later symbolic fills and +=; separately constructed instances (defaults, templates) are independent.", ""),
     "C07": ("DESIGN.md 2/C07", "a += b yields exactly (old a)+b, keeps identity, leaves b unchanged and shares no state afterwards, "
@@ -30,8 +37,13 @@ CHECKS = {
             "on both sides; symmetry, != negation, reflexivity, copies and JSON reloads equal; tolerances only widen.", ""),
     "C10": ("DESIGN.md 2/C10", "+ and += raise for every ordered pair of different primitives and for any differing structural parameter "
             "(symbolic on both sides) or nested child; rejected merges leave operands unchanged.", ""),
+    "C11": ("DESIGN.md 2/C11", "pickle round trip keeps content and equality and the clone stays live: symbolic continuation (2 fills, "
+            "merge) on clone and original agree, for 6 quantity kinds x 10 shapes; pre-pickle states are solver-chosen concretes (stated).", ""),
     "C12": ("DESIGN.md 2/C12", "For single-path trees up to depth 3, symbolic failure selectors (which record fails, at which level, by "
             "exception or wrong type): state unchanged by the failing call and final state equals that of the surviving records.", ""),
+    "C13": ("DESIGN.md 2/C13", "num_bins / bin_edges / bin_centers / bin_entries mutually consistent for symbolic sub-ranges, contiguous "
+            "with the full partition and covering the request; bin_entries(xvalues) and reported edges agree with where fill put a "
+            "symbolic probe; 2-D grid totals; Categorize labels/entries/mpv.", " + numpy stand-in (engine/npmodel.py)"),
     "C15": ("DESIGN.md 2/C15", "Every position of every valid unit document replaced by a typed symbolic hole, each key deleted, keys "
             "added: fromJson raises or returns an aggregator that re-serialises to the mutated document; valid documents accepted.", ""),
     "C16": ("DESIGN.md 2/C16", "One object installed at two symbolic positions of 9 skeletons is rejected with ContainerException before "
@@ -86,6 +98,18 @@ def main():
                 "path": "engine/run.py",
                 "serves_properties": sorted(CHECKS),
                 "kind_free_text": "symbolic execution of the real histogrammar code with z3 (CrossHair), forced float model, parallel per-harness",
+            },
+            {
+                "name": "kernel-encoder",
+                "path": "engine/kenc.py",
+                "serves_properties": ["C02", "C05", "C09"],
+                "kind_free_text": "Python AST of the routing kernels (parsed from /repo on every run) -> SMT-LIB2 QF_FP; cvc5 and z3 on the same file; translator validated on concrete inputs",
+            },
+            {
+                "name": "npmodel",
+                "path": "engine/npmodel.py",
+                "serves_properties": ["C03", "C13"],
+                "kind_free_text": "symbolic stand-in for the numpy entry points histogrammar calls; differentially validated against numpy on every run",
             }
         ],
         "checks": checks,
